@@ -705,6 +705,11 @@ func (w *WAL) AppendBatch(entries []*Entry) (uint64, error) {
 			payloadSize += 4 + len(entry.Value)
 		}
 
+		// Batch entries are written as single records: refuse the batch before
+		// anything is written rather than leave a part of it in the log
+		if payloadSize > MaxRecordSize {
+			return 0, fmt.Errorf("batch entry too large: %d > %d", payloadSize, MaxRecordSize)
+		}
 		totalSize += HeaderSize + payloadSize
 	}
 
@@ -793,6 +798,11 @@ func (w *WAL) AppendBatchWithSequence(entries []*Entry, startSequence uint64) (u
 			payloadSize += 4 + len(entry.Value)
 		}
 
+		// Batch entries are written as single records: refuse the batch before
+		// anything is written rather than leave a part of it in the log
+		if payloadSize > MaxRecordSize {
+			return 0, fmt.Errorf("batch entry too large: %d > %d", payloadSize, MaxRecordSize)
+		}
 		totalSize += HeaderSize + payloadSize
 	}
 
